@@ -23,6 +23,15 @@ MUTS = [
  ("C06", "delrows-freed-tail-not-marked", "qsopt_ex/lib.c",
   "		for (; spot < beg[i] + cnt[i]; spot++)\n		{\n			ind[spot] = -1;\n		}",
   "		for (; spot < beg[i] + cnt[i] - 1; spot++)\n		{\n			ind[spot] = -1;\n		}"),
+ ("C05", "addrows-badfactor-keeps-factorok", "qsopt_ex/lib.c",
+  "	if (factorok != 0 && badfactor == 1)\n	{\n		*factorok = 0;\n	}",
+  "	if (factorok != 0 && badfactor == 2)\n	{\n		*factorok = 0;\n	}"),
+ ("C05", "addrows-no-norms-keeps-factorok", "qsopt_ex/lib.c",
+  "	if (B == 0 || B->rownorms == 0)\n	{\n		if (factorok)\n			*factorok = 0;\n	}",
+  "	if (B == 0)\n	{\n		if (factorok)\n			*factorok = 0;\n	}"),
+ ("C05", "chgcoef-keeps-rownorms", "qsopt_ex/qsopt.c",
+  "	p->factorok = 0;	/* the basis matrix may have changed */\n	if (p->basis)\n	{		/* edge norms of the stored basis belong to the old basis matrix */\n		EGLPNUM_TYPENAME_EGlpNumFreeArray (p->basis->rownorms);",
+  "	p->factorok = 0;	/* the basis matrix may have changed */\n	if (p->basis)\n	{		/* edge norms of the stored basis belong to the old basis matrix */\n"),
 ]
 only = sys.argv[1:]
 res = []
